@@ -4,6 +4,8 @@
   [drv; n_out; n_err; n_in; use_stdin; rchunk; wchunk; exit_kind; exit_arg;
    order; reuse; delay_ms]
 
+order: 0 wait first, 1 drain first, 2 concurrent, 3 wait_with_output, 4 / 5 = wait /
+wait_with_output while the Child still owns its ChildStdin (child = cat, n_in = 0).
 Every scenario is emitted for both drivers (drv 0 = io_uring, 1 = polling).
 Payload sizes sit below, at and above the pipe capacity (65536); a few
 scenarios push >= 2 MiB through `cat` with a single large write call.  Chunk
@@ -80,7 +82,7 @@ def generate(seed, n):
     cases = []
     nsc = max(1, n // 2)
     thorough = n >= 100
-    nbig = max(1, nsc // 20)
+    nbig = max(1, nsc // 30)
     for i in range(nsc):
         if i < nbig:
             kind = "big"
@@ -96,14 +98,17 @@ def generate(seed, n):
     return cases
 
 
+ORDERS = ["wait-first", "drain-first", "concurrent", "wait_with_output", "wait(stdin inside)",
+          "wait_with_output(stdin inside)"]
+
+
 def describe(case):
-    if len(case) != 12:
+    if len(case) != 12 or case[9] > 5:
         return "malformed"
     drv, n_out, n_err, n_in, use_stdin, rchunk, wchunk, ek, ea, order, reuse, delay = case
-    cls = lambda x: "0" if x == 0 else ("<=cap" if x <= CAP else ("<2M" if x < 2 * 1024 * 1024 else ">=2M"))
-    return "%s %s order%d in:%s out:%s err:%s %s" % (
-        "poll" if drv == 1 else "uring", "echo" if use_stdin else "prod", order,
-        cls(n_in), cls(n_out), cls(n_err), "signal" if ek == 1 else "code")
+    big = max(n_in, n_out, n_err)
+    cls = "<=cap" if big <= CAP else ("<2M" if big < 2 * 1024 * 1024 else ">=2M")
+    return "%s %s %s %s" % ("poll" if drv == 1 else "uring", "echo" if use_stdin else "prod", ORDERS[order], cls)
 
 
 def nontrivial(case, out):
